@@ -36,7 +36,7 @@ skein_matrix!(
 
 pub fn run(tier: &str, config: &str) -> Report {
     let mut rep = Report::new("C05", tier, config);
-    rep.rule = "3 state sizes x 25 output sizes N in {1,2,7,8,9,16,20,28,31,32,33,48,63,64,65,96,127,128,129,160,255,256,257,300,512} bytes x every message length 0..=3B+2 (thorough 5B+2) of counting bytes, plus every one-hot message of lengths B and B+1 for N=32; compared with vref::skein (UBI over the model's own Threefish, 128-bit tweak integer); distinct_nontrivial = distinct expected digests".into();
+    rep.rule = "3 state sizes x 25 output sizes N in {1,2,7,8,9,16,20,28,31,32,33,48,63,64,65,96,127,128,129,160,255,256,257,300,512} bytes x every message length 0..=4B+2 (thorough 9B+2) of counting bytes, plus every one-hot message of lengths B and B+1 for N=32; compared with vref::skein (UBI over the model's own Threefish, 128-bit tweak integer); distinct_nontrivial = distinct expected digests".into();
     all(&mut rep, tier);
     // one-hot messages (every message bit of a full block and of the byte after it)
     fn onehot<H: HK>(rep: &mut Report) {
